@@ -24,7 +24,7 @@ ASSUMPTIONS = ['tensors agree to 1e-12, information quantities to 1e-9; construc
                'Wyner / exact common information (MarkovVarOptimizer) rearrange the joint and meet the input only at feasible points: not covered; bounds are checked with tolerance 1e-3 (niter small)']
 CODES = {'corr': 'k = index+1 of first false goal (see goal_labels); 90 = python-side violation', 'prop': 'same'}
 T9 = Fraction(1, 10 ** 9)
-KINDS = ['itc', 'idtc', 'icaekl', 'mitc', 'owskar', 'seccap', 'rdham', 'ib', 'dwtc', 'dwcoi', 'hyper']
+KINDS = ['itc', 'idtc', 'icaekl', 'mitc', 'owskar', 'seccap', 'rdham', 'ib', 'dwtc', 'dwcoi', 'hyper', 'ib']
 XKINDS = ['box', 'box', 'zero_rows', 'random', 'uniform', 'copy', 'constant', 'optimum']
 
 
@@ -45,6 +45,19 @@ def split_roles(rng, n, nroles, allow_empty_last=True):
     return parts
 
 
+def gen_full_spec(rng, n):
+    """a generic joint: (almost) full support, random weights, so that no variable is constant or independent by construction"""
+    alph = [sorted(rng.sample(range(6), rng.choice([2, 2, 3]))) for _ in range(n)]
+    while len(list(itertools.product(*alph))) > 24:
+        alph[rng.randrange(n)] = sorted(rng.sample(range(6), 2))
+    full = [list(o) for o in itertools.product(*alph)]
+    sup = full if rng.random() < 0.5 else rng.sample(full, max(2, len(full) - rng.randint(1, 3)))
+    ws = [rng.choice([1, 2, 3, 5, 8]) for _ in sup] if rng.random() < 0.5 else [rng.random() + 0.05 for _ in sup]
+    names = rng.sample(G.NAMES, n) if rng.random() < 0.3 else None
+    return {'n': n, 'klass': rng.choice(['str', 'int']), 'alph': alph, 'outcomes': sup, 'pmf': [w / sum(ws) for w in ws], 'ss_kind': 'default', 'ss': None,
+            'base': rng.choice(['linear', 'linear', 2, 'e']), 'sparse': rng.random() < 0.6, 'trim': True, 'names': names}
+
+
 def generate(rng, tier):
     mult = 1 if tier == 'quick' else 8
     cases = []
@@ -54,19 +67,23 @@ def generate(rng, tier):
         i += 1
         spec = G.gen_spec(rng, nmin=2, nmax=4, amax=2 if rng.random() < 0.6 else 3, max_ss=24, klasses=('str', 'int'), allow_expl=False,
                           prob_kinds=['dyadic', 'kn', 'decimal', 'random'])
+        if kind == 'ib' or rng.random() < 0.5:
+            spec = gen_full_spec(rng, rng.choice([3, 3, 4]) if kind != 'hyper' else rng.choice([2, 3]))
         if sum(1 for p in spec['pmf'] if p > 0) < 2:
             continue
         n = spec['n']
-        nroles = {'itc': 3, 'idtc': 3, 'icaekl': 3, 'mitc': 3, 'owskar': 3, 'seccap': 3, 'rdham': rng.choice([1, 2]), 'ib': rng.choice([2, 3]),
+        nroles = {'itc': 3, 'idtc': 3, 'icaekl': 3, 'mitc': 3, 'owskar': 3, 'seccap': 3, 'rdham': rng.choice([1, 2]), 'ib': 3 if (spec['n'] >= 3 and rng.random() < 0.8) else 2,
                   'dwtc': rng.choice([2, 3]), 'dwcoi': rng.choice([2, 3]), 'hyper': 2}[kind]
         if kind in ('itc', 'idtc', 'icaekl', 'mitc') and n >= 4 and rng.random() < 0.4:
             nroles = 4
         roles = split_roles(rng, n, nroles)
         if roles is None:
             continue
+        if kind == 'rdham':
+            roles[0] = roles[0][:1]          # rate-distortion compresses one variable; its alphabet is also the default bound
         byname = spec['names'] is not None
         case = {'kind': kind, 'spec': spec, 'roles': roles, 'xkind': rng.choice(XKINDS), 'xseed': rng.randrange(10 ** 6),
-                'bound': rng.choice([None, None, 1, 2, 3]), 'bound2': rng.choice([None, 1, 2]), 'beta': rng.choice([0.0, 0.5, 1.0, 2.5]),
+                'bound': rng.choice([None, None, 1, 2, 3]), 'bound2': rng.choice([None, 1, 2]), 'beta': rng.choice([0.0, 0.5, 1.0, 2.5]) if kind != 'ib' else rng.choice([0.5, 1.0, 2.5]),
                 'crv_empty': kind in ('dwtc', 'dwcoi') and rng.random() < 0.5, 'byname': byname}
         if kind in ('mitc', 'owskar') and case['xkind'] == 'optimum':
             case['xkind'] = 'random'
@@ -247,6 +264,7 @@ def observe(case):
         extra['complexity'] = float(opt.complexity(J))
         extra['relevance'] = float(opt.relevance(J))
         extra['error'] = float(opt.error(J))
+        extra['ib_distortion'] = float(opt.distortion(J))
     res['extra'] = extra
     # the distribution with its auxiliary variables
     try:
@@ -394,6 +412,12 @@ def to_coq(case, o):
         return item
     if not o['x_same']:
         item['pyviolation'] = 'construct_joint modified the parameter vector'
+    if len(o['J']) > 100:
+        # exact evaluation of a joint of several hundred products of 53-bit rationals takes minutes: python-level sanity only
+        item['big_joint'] = True
+        if abs(sum(o['J']) - 1) > 1e-9 or min(o['J']) < 0:
+            item['pyviolation'] = 'construct_joint is not a proper joint'
+        return item
     groups = o['groups']
     avs = []
     off = 0
@@ -449,6 +473,8 @@ def to_coq(case, o):
         add(okd('cmi_data15 %s %d%%nat [0]%%nat [3]%%nat [2]%%nat' % (J, nv), ex['complexity'], T9), 'complexity = I[X:T|Z]')
         add(okd('cmi_data15 %s %d%%nat [1]%%nat [3]%%nat [2]%%nat' % (J, nv), ex['relevance'], T9), 'relevance = I[Y:T|Z]')
         add(okd('cmi_data15 %s %d%%nat [0]%%nat [1]%%nat [2;3]%%nat' % (J, nv), ex['error'], T9), 'error = I[X:Y|T,Z]')
+        add(okd('oadd (cmi_data15 %s %d%%nat [0]%%nat [1]%%nat [2]%%nat) (oscale15 ((-1)#1) (cmi_data15 %s %d%%nat [1]%%nat [3]%%nat [2]%%nat))' % (J, nv, J, nv), ex['ib_distortion'], T9),
+            'distortion = I[X:Y|Z] - I[Y:T|Z]')
         add(ged('cmi_data15 %s %d%%nat [0]%%nat [1]%%nat [2]%%nat' % (J, nv), ex['relevance'], T9), 'relevance <= I[X:Y|Z] for every parameter vector')
         add(ged('ent_data %s %d%%nat [0]%%nat [2]%%nat' % (J, nv), ex['complexity'], T9), 'complexity <= H[X|Z] for every parameter vector')
     if 'cdist_error' in o:
